@@ -228,9 +228,25 @@ def run_shard(prop, tier, seed, shard, nshards, on_ctx=None):
     ctx = Ctx(prop, tier, seed, shard, nshards)
     if on_ctx is not None:
         on_ctx(ctx)
+
+    def nfds():
+        try:
+            return len(os.listdir("/proc/self/fd"))
+        except OSError:
+            return None
+    fd0 = nfds()
     try:
         check_repo_binding()
         mod.run(ctx)
+        import gc
+        gc.collect()
+        fd1 = nfds()
+        if fd0 is not None and fd1 is not None:
+            ctx.extra["open_file_descriptors_growth_max"] = fd1 - fd0
+            if fd1 - fd0 > 64:
+                # every case closes what it opened: a shard that ends with dozens of descriptors more than it started with has a leak
+                # that would sooner or later turn every answer into an EMFILE error
+                ctx.violation("resource|file-descriptors-leak", {"descriptors_at_start": fd0, "descriptors_at_end": fd1}, f"{fd1 - fd0} more descriptors open at the end of the shard")
     except HarnessError as e:
         ctx.inconclusive(f"harness: {e}")
     except Exception:
